@@ -17,6 +17,16 @@ func (s *sim) applyKnobs(cfg *config.Configuration) {
 	if v := p.Knob("maturity", -1); v >= 0 {
 		cfg.PowConfiguration.CoinbaseMaturity = uint32(v)
 	}
+	// compressed issuance schedule (C11)
+	if v := p.Knob("newissue", -1); v >= 0 {
+		cfg.NewELAIssuanceHeight = uint32(v)
+	}
+	if v := p.Knob("halvingh", -1); v >= 0 {
+		cfg.HalvingRewardHeight = uint32(v)
+	}
+	if v := p.Knob("halvingint", -1); v > 0 {
+		cfg.HalvingRewardInterval = uint32(v)
+	}
 }
 
 // checkAll runs after every step, once the node's goroutines are quiescent.
